@@ -450,7 +450,8 @@ def processAttr2 (D : Decls) (d : Dialect) (st : St d) (e : Entity) (tname : Nam
       else
         match findAttr D tgt rname, lookup tgt st.entTable with
         | some r, some pt =>
-          match st.schema.addFk tname r.fkName cols pt.n (pkOf tgt) a.index with
+          -- `fk_name = attr.fk_name if attr.fk_name is not None else attr.reverse.fk_name`
+          match st.schema.addFk tname (match a.fkName with | some n => some n | none => r.fkName) cols pt.n (pkOf tgt) a.index with
           | .error x => .error x
           | .ok sch => .ok { st with schema := sch }
         | _, _ => err "Precondition" "unlinked-reverse"
